@@ -7,6 +7,14 @@ let model = function
       let a = str_of_hex a and b = str_of_hex b in
       let (p, r, s) = (match m with "1" -> (a, b, a) | "2" -> (b, a, a) | _ -> (a, a, a)) in
       (match replace_all p r s with None -> "HANG" | Some x -> "S " ^ hex_of_str x)
+  | ["joinn"; i; inner; rows] ->
+      let rs = if rows = "." then [] else List.map strs_of_wire (String.split_on_char '/' rows) in
+      "S " ^ hex_of_str (join (str_of_hex i) (List.map (join (str_of_hex inner)) rs))
+  | ["joinh"; i; l] ->
+      let ints = if l = "." then [] else List.map int_of_string (String.split_on_char ',' l) in
+      let bytes_of s = List.map (fun c -> byte_of_int (Char.code c)) (List.of_seq (String.to_seq s)) in
+      "S " ^ hex_of_str (join (str_of_hex i) (List.map (fun d -> bytes_of (Printf.sprintf "%Lx" (Int64.of_int d))) ints))
+      ^ " " ^ hex_of_str (join (str_of_hex i) (List.map (fun d -> bytes_of (string_of_int d)) ints))
   | ["joinw"; i; l] -> "S " ^ hex_of_str (join (str_of_hex i) (strs_of_wire l))
   | ["starts"; f; p] -> if starts_with (str_of_hex f) (str_of_hex p) then "B 1" else "B 0"
   | ["join"; i; l] -> "S " ^ hex_of_str (join (str_of_hex i) (strs_of_wire l))
@@ -28,6 +36,14 @@ let oracle case obs =
       let a = str_of_hex a and b = str_of_hex b in
       let (p, r, s) = (match m with "1" -> (a, b, a) | "2" -> (b, a, a) | _ -> (a, a, a)) in
       str_of_hex x = spec_replace p r s
+  | ["joinn"; i; inner; rows], ["S"; x] ->
+      let rs = if rows = "." then [] else List.map strs_of_wire (String.split_on_char '/' rows) in
+      str_of_hex x = spec_join (str_of_hex i) (List.map (spec_join (str_of_hex inner)) rs)
+  | ["joinh"; i; l], ["S"; a; b] ->
+      let ints = if l = "." then [] else List.map int_of_string (String.split_on_char ',' l) in
+      let bytes_of s = List.map (fun c -> byte_of_int (Char.code c)) (List.of_seq (String.to_seq s)) in
+      str_of_hex a = spec_join (str_of_hex i) (List.map (fun d -> bytes_of (Printf.sprintf "%Lx" (Int64.of_int d))) ints)
+      && str_of_hex b = spec_join (str_of_hex i) (List.map (fun d -> bytes_of (string_of_int d)) ints)
   | ["joinw"; i; l], ["S"; x] -> str_of_hex x = spec_join (str_of_hex i) (strs_of_wire l)
   | ["starts"; f; p], ["B"; b] -> (b = "1") = prefixb (str_of_hex p) (str_of_hex f)
   | ["join"; i; l], ["S"; x] -> str_of_hex x = spec_join (str_of_hex i) (strs_of_wire l)
